@@ -268,6 +268,7 @@ pub fn run(ctx: &mut Ctx) {
                     ctx.sample(Json::obj().with("src", Json::s(&r.text)).with("renderer_tokens", Json::u(r.tokens.len() as u64)));
                 }
                 check_text(ctx, &r.text, Some(&r));
+                check_ast_ranges(ctx, &r.text);
             }
             Err(e) => {
                 ctx.count("generator_inexpressible");
@@ -287,4 +288,126 @@ pub fn run(ctx: &mut Ctx) {
             check_text(ctx, s, None);
         }
     });
+}
+
+// ------------------------------------------------------------------------- syntax-tree ranges
+
+use rrss::analysis::visit::{self, Combine, ExprVisitorRunner, Visit, VisitExpr, VisitProgram};
+use rrss::frontend::ast::{LiteralExpression, VariableName, WithRange};
+use rrss::frontend::source_range::SourceRange;
+
+#[derive(Default)]
+struct Nothing;
+impl Combine for Nothing {
+    fn combine(self, _: Self) -> Self {
+        Nothing
+    }
+}
+
+enum Ranged {
+    Name(Vec<String>),
+    Pronoun,
+    Number(f64),
+    Str(String),
+    OtherLiteral,
+}
+
+struct RangeRecorder {
+    seen: Vec<(SourceRange, Ranged)>,
+}
+
+impl Visit for RangeRecorder {
+    type Output = Nothing;
+    type Error = ();
+}
+
+impl VisitExpr for RangeRecorder {
+    fn visit_literal_expression(&mut self, e: &WithRange<LiteralExpression>) -> visit::Result<Self> {
+        let r = match &e.0 {
+            LiteralExpression::Number(n) => Ranged::Number(*n),
+            LiteralExpression::String(s) => Ranged::Str(s.clone()),
+            _ => Ranged::OtherLiteral,
+        };
+        self.seen.push((e.1.clone(), r));
+        Ok(Nothing)
+    }
+    fn visit_pronoun(&mut self, range: SourceRange) -> visit::Result<Self> {
+        self.seen.push((range, Ranged::Pronoun));
+        Ok(Nothing)
+    }
+    fn visit_variable_name(&mut self, n: WithRange<&VariableName>) -> visit::Result<Self> {
+        let words = match n.0 {
+            VariableName::Simple(s) => vec![s.0.clone()],
+            VariableName::Common(c) => vec![c.0.clone(), c.1.clone()],
+            VariableName::Proper(p) => p.0.clone(),
+        };
+        self.seen.push((n.1.clone(), Ranged::Name(words)));
+        Ok(Nothing)
+    }
+}
+
+fn offset_of(line_starts: &[usize], src: &str, line: u32, col: u32) -> Option<usize> {
+    let ls = *line_starts.get((line as usize).checked_sub(1)?)?;
+    let off = ls + col as usize;
+    if off <= src.len() && src.is_char_boundary(off) {
+        Some(off)
+    } else {
+        None
+    }
+}
+
+/// the ranges the parser attaches to identifiers and literals must cover exactly their tokens
+pub fn check_ast_ranges(ctx: &mut Ctx, src: &str) {
+    let prog = match mon::parse_quiet(src) {
+        Ok(p) => p,
+        Err(_) => return,
+    };
+    let mut line_starts = vec![0usize];
+    for (i, b) in src.bytes().enumerate() {
+        if b == b'\n' {
+            line_starts.push(i + 1);
+        }
+    }
+    let mut runner = ExprVisitorRunner::with_inner(RangeRecorder { seen: Vec::new() });
+    let _ = runner.visit_program(&prog);
+    let rec = runner.inner();
+    ctx.eval();
+    for (range, what) in &rec.seen {
+        ctx.count("ast_ranges_checked");
+        let (s, e) = (range.start(), range.end());
+        let so = offset_of(&line_starts, src, s.line, s.column);
+        let eo = offset_of(&line_starts, src, e.line, e.column);
+        let bad = |ctx: &mut Ctx, why: String| {
+            ctx.violation(
+                "ast_range:does_not_cover_its_tokens",
+                &format!("range {:?}..{:?}: {}", (s.line, s.column), (e.line, e.column), why),
+                case_src(src),
+            );
+        };
+        let (so, eo) = match (so, eo) {
+            (Some(a), Some(b)) if a <= b => (a, b),
+            _ => {
+                bad(ctx, "not a position inside the source".into());
+                return;
+            }
+        };
+        let slice = &src[so..eo];
+        let ok = match what {
+            Ranged::Name(words) => slice.starts_with(words[0].as_str()) && slice.ends_with(words[words.len() - 1].as_str()),
+            Ranged::Pronoun => crate::kw::aliases(crate::kw::Kw::Pronoun).contains(&slice.to_lowercase().as_str()),
+            Ranged::Number(n) => slice.parse::<f64>().map(|v| v.to_bits() == n.to_bits()).unwrap_or(false),
+            Ranged::Str(s) => {
+                (slice.len() >= 2 && slice.starts_with('"') && slice.ends_with('"') && &slice[1..slice.len() - 1] == s.as_str())
+                    || (s.is_empty() && crate::kw::aliases(crate::kw::Kw::Empty).contains(&slice.to_lowercase().as_str()))
+            }
+            Ranged::OtherLiteral => crate::kw::is_keyword(slice),
+        };
+        if !ok {
+            bad(ctx, format!("covers {:?}", slice.chars().take(60).collect::<String>()));
+            return;
+        }
+        if s.line != e.line {
+            ctx.count("ast_ranges_spanning_lines");
+        }
+    }
 }
